@@ -11,7 +11,7 @@ package mpb
 //@ typeinv Bar props C02 C09 self.cancel != nil && self.frameCh != nil && self.operateState != nil && self.bsOk != nil && self.container != nil && self.ctx != nil && !isext(self.bsOk)
 
 //@ func newBar
-//@   props    C02 C09
+//@   props    C02 C09 C06 C17
 //@   requires container != nil && bs != nil
 //@   ensures  result != nil && fresh(result)
 //@   ensures  result.priority == bs.priority && result.container == container
@@ -19,9 +19,10 @@ package mpb
 // ---------------------------------------------------------------------------------------
 // bar state: completion (C09, C11)
 
-//@ func (bState).completed
+//@ func (*bState).completed
 //@   props    C09 C11
 //@   pure
+//@   requires s != nil
 //@   ensures  trig: result ==> s.triggerComplete && s.current == s.total
 //@   ensures  done: !s.aborted && s.triggerComplete && s.current == s.total ==> result
 //@   ensures  exclusive: s.aborted ==> !result
@@ -290,11 +291,12 @@ package mpb
 // ewma flavours: every moving-average decorator receives the sample once, with its duration
 
 //@ func (*Bar).EwmaIncrInt64$1$1
-//@   props    C19 C09
+//@   props    C19 C09 C10
 //@   requires d != nil
 //@   ensures  called("decor.EwmaDecorator.EwmaUpdate") == old(called("decor.EwmaDecorator.EwmaUpdate")) + 1
 //@   ensures  calledWith("decor.EwmaDecorator.EwmaUpdate", 0) == d && calledWith("decor.EwmaDecorator.EwmaUpdate", 1) == n
 //@            && calledWith("decor.EwmaDecorator.EwmaUpdate", 2) == iterDur
+//@   ensures  done@C10,C19: called("(*sync.WaitGroup).Done") == old(called("(*sync.WaitGroup).Done")) + 1
 
 //@ func (*Bar).EwmaIncrInt64$1
 //@   props    C19 C09 C11 C10
@@ -311,13 +313,16 @@ package mpb
 //@              ==> s.current == wrap64(old(s.current) + n) && s.triggerComplete == old(s.triggerComplete)
 //@   ensures  S1@C11: old(s.completed()) && n >= 0 ==> s.completed()
 //@   ensures  S2@C11: old(s.aborted) ==> s.aborted && !s.completed()
+//@   ensures  joined@C10,C19: called("(*sync.WaitGroup).Add") == old(called("(*sync.WaitGroup).Add")) + 1 && calledWith("(*sync.WaitGroup).Add", 1) == len(s.ewmaDecorators)
+//@              && called("(*sync.WaitGroup).Wait") == old(called("(*sync.WaitGroup).Wait")) + 1
 
 //@ func (*Bar).EwmaSetCurrent$1$1
-//@   props    C19 C09
+//@   props    C19 C09 C10
 //@   requires d != nil
 //@   ensures  called("decor.EwmaDecorator.EwmaUpdate") == old(called("decor.EwmaDecorator.EwmaUpdate")) + 1
 //@   ensures  calledWith("decor.EwmaDecorator.EwmaUpdate", 0) == d && calledWith("decor.EwmaDecorator.EwmaUpdate", 1) == n
 //@            && calledWith("decor.EwmaDecorator.EwmaUpdate", 2) == iterDur
+//@   ensures  done@C10,C19: called("(*sync.WaitGroup).Done") == old(called("(*sync.WaitGroup).Done")) + 1
 
 //@ func (*Bar).EwmaSetCurrent$1
 //@   props    C19 C09 C11 C10
@@ -334,6 +339,8 @@ package mpb
 //@              ==> s.current == current && s.triggerComplete == old(s.triggerComplete)
 //@   ensures  S1@C11: old(s.completed()) && current >= old(s.current) ==> s.completed()
 //@   ensures  S2@C11: old(s.aborted) ==> s.aborted && !s.completed()
+//@   ensures  joined@C10,C19: called("(*sync.WaitGroup).Add") == old(called("(*sync.WaitGroup).Add")) + 1 && calledWith("(*sync.WaitGroup).Add", 1) == len(s.ewmaDecorators)
+//@              && called("(*sync.WaitGroup).Wait") == old(called("(*sync.WaitGroup).Wait")) + 1
 
 // ---------------------------------------------------------------------------------------
 // fillers (C07 width and termination, C08 filled/refill segments, C02 safety)
@@ -391,8 +398,13 @@ package mpb
 //@   ensures  dw(written(w)) - old(dw(written(w))) <= dw(p) && dw(written(w)) >= old(dw(written(w)))
 //@   ensures  err == nil ==> dw(written(w)) == old(dw(written(w))) + dw(p)
 
+// C08: the cells handed to the refiller, filler and tip sections together are the rounded
+// share PercentageRound(total, current, width), to within one rune: never more than the share
+// (or the tip alone), and less than one filler (refiller) rune short of it
+//@ spec prw(t, c, w) = trunc(pure("internal.PercentageRound", t, c, w))
+
 //@ func (*bFiller).Fill
-//@   props    C07 C02
+//@   props    C07 C02 C08
 //@   wraps    uint
 //@   requires s != nil && w != nil
 //@   requires 0 <= stat.AvailableWidth && stat.AvailableWidth <= 1<<31 && stat.RequestedWidth <= 1<<31
@@ -400,27 +412,35 @@ package mpb
 //@   loop 1   invariant fillCount == tip.width + dw(filling) + dw(refilling) + dw(padding) && dw(padding) == 0 && dw(refilling) == 0
 //@   loop 1   invariant curWidth <= width && refWidth <= width && fillCount <= max(width, tip.width) && fillCount >= 0
 //@   loop 1   invariant dw(written(in(w))) == old(dw(written(in(w)))) + s.components[iLbound].width
+//@   loop 1   invariant share@C08: (stat.Refill == 0 ==> curWidth == prw(stat.Total, stat.Current, width) && refWidth == 0) && (stat.Refill != 0 ==> refWidth == prw(stat.Total, stat.Current, width) && curWidth <= refWidth)
+//@   loop 1   invariant upper@C08: fillCount <= max(prw(stat.Total, stat.Current, width), tip.width)
 //@   loop 1   decreases curWidth - fillCount
 //@   loop 2   invariant fillCount == tip.width + dw(filling) + dw(refilling) + dw(padding) && dw(padding) == 0
 //@   loop 2   invariant curWidth <= width && refWidth <= width && fillCount <= max(width, tip.width) && fillCount >= 0
 //@   loop 2   invariant refilled@C08: dw(refilling) <= max(refWidth, 0)
 //@   loop 2   invariant dw(written(in(w))) == old(dw(written(in(w)))) + s.components[iLbound].width
+//@   loop 2   invariant share@C08: (stat.Refill == 0 ==> curWidth == prw(stat.Total, stat.Current, width) && refWidth == 0) && (stat.Refill != 0 ==> refWidth == prw(stat.Total, stat.Current, width) && curWidth <= refWidth)
+//@   loop 2   invariant upper@C08: fillCount <= max(prw(stat.Total, stat.Current, width), tip.width)
+//@   loop 2   invariant lowfill@C08: stat.Refill == 0 && s.components[iFiller].width > 0 ==> fillCount > curWidth - s.components[iFiller].width
 //@   loop 2   decreases refWidth - fillCount
 //@   loop 3   invariant fillCount == tip.width + dw(filling) + dw(refilling) + dw(padding)
 //@   loop 3   invariant fillCount <= max(width, tip.width) && fillCount >= 0
 //@   loop 3   invariant dw(written(in(w))) == old(dw(written(in(w)))) + s.components[iLbound].width
+//@   loop 3   invariant upper@C08: tip.width + dw(filling) + dw(refilling) <= max(prw(stat.Total, stat.Current, width), tip.width)
+//@   loop 3   invariant lower@C08: (stat.Refill == 0 && s.components[iFiller].width > 0 ==> tip.width + dw(filling) + dw(refilling) > prw(stat.Total, stat.Current, width) - s.components[iFiller].width)
+//@              && (stat.Refill != 0 && s.components[iRefiller].width > 0 ==> tip.width + dw(filling) + dw(refilling) > prw(stat.Total, stat.Current, width) - s.components[iRefiller].width)
 //@   loop 3   decreases width - fillCount
 //@   loop 4   invariant fillCount == tip.width + dw(filling) + dw(refilling) + dw(padding)
 //@   loop 4   invariant fillCount <= max(width, tip.width) && fillCount >= 0
 //@   loop 4   invariant dw(written(in(w))) == old(dw(written(in(w)))) + s.components[iLbound].width
 //@   loop 4   decreases width - fillCount
-//@   ensures  neg: allot(stat.RequestedWidth, stat.AvailableWidth) < s.components[iLbound].width + s.components[iRbound].width
+//@   ensures  neg@C07,C02: allot(stat.RequestedWidth, stat.AvailableWidth) < s.components[iLbound].width + s.components[iRbound].width
 //@              ==> result == nil && dw(written(w)) == old(dw(written(w)))
-//@   ensures  zero: allot(stat.RequestedWidth, stat.AvailableWidth) == s.components[iLbound].width + s.components[iRbound].width && result == nil
+//@   ensures  zero@C07,C02: allot(stat.RequestedWidth, stat.AvailableWidth) == s.components[iLbound].width + s.components[iRbound].width && result == nil
 //@              ==> dw(written(w)) == old(dw(written(w))) + allot(stat.RequestedWidth, stat.AvailableWidth)
-//@   ensures  exact: allot(stat.RequestedWidth, stat.AvailableWidth) > s.components[iLbound].width + s.components[iRbound].width && result == nil
+//@   ensures  exact@C07,C02: allot(stat.RequestedWidth, stat.AvailableWidth) > s.components[iLbound].width + s.components[iRbound].width && result == nil
 //@              ==> dw(written(w)) == old(dw(written(w))) + allot(stat.RequestedWidth, stat.AvailableWidth)
-//@   ensures  fits: dw(written(w)) - old(dw(written(w))) <= max(0, stat.AvailableWidth)
+//@   ensures  fits@C07,C02: dw(written(w)) - old(dw(written(w))) <= max(0, stat.AvailableWidth)
 
 //@ func (BarFillerFunc).Fill
 //@   props    C07
@@ -549,7 +569,7 @@ package mpb
 // one row: decorators, two spaces, the filler body, a line feed
 
 //@ func (*bState).draw$1
-//@   props    C07 C12
+//@   props    C07 C12 C04
 //@   requires buf != nil && stat.AvailableWidth >= 0
 //@   requires forall(i, 0, len(group), group[i] != nil)
 //@   modifies written(buf), pkgstate("decor"), sent("chan int"), recvd("chan int")
@@ -562,7 +582,7 @@ package mpb
 //@   ensures  participation@C12: called("decor.Decorator.Decor") == old(called("decor.Decorator.Decor")) + len(group)
 
 //@ func (*bState).draw
-//@   props    C07
+//@   props    C07 C04
 //@   requires s != nil && s.filler != nil
 //@   requires s.buffers[0] != nil && s.buffers[1] != nil && s.buffers[2] != nil
 //@   requires s.buffers[0] != s.buffers[1] && s.buffers[0] != s.buffers[2] && s.buffers[1] != s.buffers[2]
@@ -741,7 +761,7 @@ package mpb
 //@   ensures  sent(ch) == old(sent(ch)) + 1 && unboxAs(lastSent(ch), "[]*Bar") == bHeap
 
 //@ func (heapManager).run
-//@   props    C05 C06 C02 C12 C14
+//@   props    C05 C06 C02 C12 C14 C03
 //@   requires m != nil
 //@   assumes  emptyheap()
 //@   loop 1   invariant pqwf(bHeap) && len(bHeap) >= 0
@@ -762,7 +782,7 @@ package mpb
 //@   loop 1   ensures syncflag@C12: req.cmd == h_push ==> sync == (iter(sync) || unboxAs(req.data, "pushData").sync)
 //@   loop 1   ensures synced@C12: req.cmd == h_sync ==> !sync && len == len(bHeap) && spawned("maxWidthDistributor") >= iter(spawned("maxWidthDistributor"))
 //@   loop 1   ensures syncframe@C12: req.cmd != h_push && req.cmd != h_sync ==> sync == iter(sync) && len == iter(len)
-//@   loop 1   ensures state@C03: req.cmd == h_state ==> sent(unboxAs(req.data, "chan<- bool")) == iter(sent(now(unboxAs(req.data, "chan<- bool")))) + 1
+//@   loop 1   ensures state@C03: req.cmd == h_state ==> sent(unboxAs(req.data, "chan<- bool")) == iter(sent(now(unboxAs(req.data, "chan<- bool")))) + 1 && lastSent(unboxAs(req.data, "chan<- bool")) == (iter(sync) || iter(len) != len(bHeap))
 //@              && lastSent(unboxAs(req.data, "chan<- bool")) == (sync || len != len(bHeap))
 //@   loop 1   ensures ended@C14,C05,C02: req.cmd == h_end ==> closed(m)
 //@   loop 1   ensures notify@C14: req.cmd == h_end && unboxAs(req.data, "chan<- interface{}") != nil ==> spawned("(heapManager).run$1") == iter(spawned("(heapManager).run$1")) + 1
@@ -806,8 +826,8 @@ package mpb
 //@   loop 1   ensures atmost@C05: len(pushes) == iter(len(pushes)) || len(pushes) == iter(len(pushes)) + 1
 //@   loop 1   ensures normal@C05: frame.shutdown != 1 && frame.shutdown != 2
 //@              ==> len(pushes) == iter(len(pushes)) + 1 && pushes[len(pushes) - 1].bar == b && !pushes[len(pushes) - 1].sync
-//@   loop 1   ensures popped@C18,C05: frame.shutdown == 2 && s.popCompleted && !frame.noPop
-//@              ==> len(pushes) == iter(len(pushes)) && popCount == iter(popCount) + usedRows
+//@   loop 1   ensures popped@C18,C05,C04: frame.shutdown == 2 && s.popCompleted && !frame.noPop
+//@              ==> len(pushes) == iter(len(pushes)) && popCount == iter(popCount) + len(rows) - iter(len(rows))
 //@   loop 1   ensures kept@C18,C05: frame.shutdown == 2 && !(s.popCompleted && !frame.noPop)
 //@              ==> len(pushes) == iter(len(pushes)) + 1 && pushes[len(pushes) - 1].bar == b && !pushes[len(pushes) - 1].sync && popCount == iter(popCount)
 //@   loop 1   ensures successor@C17,C05,C06: frame.shutdown == 1 && iter(has(s.queueBars, now(b)))
@@ -825,8 +845,8 @@ package mpb
 //@   loop 1   ensures cancel@C03: (frame.shutdown == 1) == (called("Bar.cancel") == iter(called("Bar.cancel")) + 1)
 //@              && (frame.shutdown != 1 ==> called("Bar.cancel") == iter(called("Bar.cancel")))
 //@   loop 1   ensures priority@C06: frame.shutdown != 1 ==> s.popPriority == iter(s.popPriority) && b.priority == iter(now(b).priority)
-//@   loop 1   ensures clip@C04: usedRows == min(len(frame.rows), height - iter(len(rows))) && len(rows) == iter(len(rows)) + usedRows
-//@   loop 1   ensures shown@C18: frame.shutdown == 2 && s.popCompleted && !frame.noPop ==> usedRows == len(frame.rows)
+//@   loop 1   ensures clip@C04: len(rows) == iter(len(rows)) + min(len(frame.rows), height - iter(len(rows)))
+//@   loop 1   ensures shown@C18: frame.shutdown == 2 && s.popCompleted && !frame.noPop ==> len(rows) - iter(len(rows)) == len(frame.rows)
 //@   loop 1   ensures nopoponkeep@C18: !(frame.shutdown == 2 && s.popCompleted && !frame.noPop) ==> popCount == iter(popCount)
 //@   loop 2   invariant forall(k, 0, len(pushes), pushes[k].bar != nil) && !closed(s.hm)
 //@   loop 3   invariant -1 <= i && i < len(frame.rows) && usedRows >= 0 && len(rows) <= height
@@ -879,7 +899,7 @@ package mpb
 //@   ensures  result != nil
 
 //@ func (pState).makeBarState
-//@   props    C09 C06 C19 C02 C17 C05
+//@   props    C09 C06 C19 C02 C17 C05 C07
 //@   requires filler != nil
 //@   loop 1   invariant bs != nil && fresh(bs) && bs.total == total && bs.current == 0 && bs.refill == 0 && bs.triggerComplete == (total > 0) && !bs.aborted && bs.shutdown == 0
 //@   loop 1   invariant bs.renderReq == s.renderReq && bs.autoRefresh == s.autoRefresh && bs.filler != nil && bs.extender != nil
@@ -910,6 +930,8 @@ package mpb
 //@   ensures  accounted@C05,C17: called("(heapManager).push") == old(called("(heapManager).push")) + 1 && calledWith("(heapManager).push", 1) == lastSent(ch) && calledWith("(heapManager).push", 2) == true
 //@              || called("(heapManager).push") == old(called("(heapManager).push")) && exists(k, has(ps.queueBars, k) && ps.queueBars[k] == lastSent(ch) && !old(has(ps.queueBars, k)))
 //@   ensures  live@C17: called("(heapManager).push") == old(called("(heapManager).push")) ==> bs.waitBar != nil && !bs.waitBar.retired
+//@   ensures  inherit@C06,C17: called("(heapManager).push") == old(called("(heapManager).push")) + 1 && bs.waitBar != nil ==> lastSent(ch).priority == bs.waitBar.priority
+//@   ensures  own@C06: bs.waitBar == nil ==> lastSent(ch).priority == bs.priority
 //@   ensures  nooverwrite@C17: forall(k, old(has(ps.queueBars, k)) ==> has(ps.queueBars, k) && ps.queueBars[k] == old(ps.queueBars[k]))
 //@   ensures  parkedstill: forall(k, has(ps.queueBars, k) ==> ps.queueBars[k] != nil)
 
@@ -964,7 +986,7 @@ package mpb
 //@ typeinv bState props C02 C03 C07 forall(i, 0, len(self.decorGroups[0]), self.decorGroups[0][i] != nil) && forall(i, 0, len(self.decorGroups[1]), self.decorGroups[1][i] != nil)
 
 //@ func (*Bar).render$1
-//@   props    C03 C15 C18 C11 C02
+//@   props    C03 C15 C18 C11 C02 C10
 //@   requires s != nil && b != nil && tw >= 0 && tw <= 1<<31
 //@   assumes  drained: dw(written(s.buffers[0])) == 0 && dw(written(s.buffers[1])) == 0 && dw(written(s.buffers[2])) == 0
 //@   assumes  s.shutdown < 1<<62
@@ -1082,9 +1104,13 @@ package mpb
 //@ chan serve.operateState assume v != nil
 //@ chan serve.interceptIO assume v != nil
 
+// the drain goroutine started after a render error keeps taking refresh requests until the
+// refresh listener has gone (p.done), so the listener is never left parked on a request
 //@ func (*Progress).serve$1
-//@   props    C15
+//@   props    C15 C02
 //@   requires s != nil && p != nil
+//@   loop 1   invariant recvd(p.done) == old(recvd(p.done)) && p.done == old(p.done)
+//@   ensures  untildone@C15,C02: recvd(p.done) == old(recvd(p.done)) + 1
 
 //@ func (*Progress).serve
 //@   props    C03 C04 C13 C14 C15 C05 C02
@@ -1104,6 +1130,7 @@ package mpb
 //@   loop 1   ensures onerender: called("(*pState).render") <= iter(called("(*pState).render")) + 1
 //@   loop 1   ensures cancelonce@C15: iter(err) == nil && err != nil ==> called("Progress.cancel") == iter(called("Progress.cancel")) + 1 && spawned("(*Progress).serve$1") == iter(spawned("(*Progress).serve$1")) + 1
 //@   loop 2   invariant !closed(s.hm) && w != nil && wkey(w.out) != w.Buffer && !closed(s.iterDrop) && update != nil && i >= 0
+//@   loop 2   assumes   i < MaxInt64 // one increment per rendered final frame
 //@   loop 2   invariant forall(k, has(s.queueBars, k) ==> s.queueBars[k] != nil)
 //@   loop 2   invariant called("(heapManager).end") == old(called("(heapManager).end")) && called("fmt.Fprintln") == old(called("fmt.Fprintln"))
 //@   loop 2   invariant called("(*pState).render") == entry(2, called("(*pState).render")) + i
@@ -1111,6 +1138,8 @@ package mpb
 //@   ensures  ended@C14,C05,C02: called("(heapManager).end") == old(called("(heapManager).end")) + 1 && calledWith("(heapManager).end", 1) == old(s.shutdownNotifier)
 //@   ensures  reported@C15: called("fmt.Fprintln") <= old(called("fmt.Fprintln")) + 1 && (err#1 != nil ==> called("fmt.Fprintln") == old(called("fmt.Fprintln")) + 1 && calledWith("fmt.Fprintln", 0) == old(s.debugOut))
 //@   ensures  noframeaftererror@C15: err#1 != nil ==> called("(*pState).render") == at(1, called("(*pState).render"))
+//@   loop 2   ensures asks@C03: returned("(*pState).render", 0) == nil ==> called("(heapManager).state") == iter(called("(heapManager).state")) + 1 && calledWith("(heapManager).state", 1) == update
+//@   ensures  settled@C03: err#1 == nil && s.autoRefresh && returned("(*pState).render", 0) == nil ==> !lastRecvd(update)
 //@   ensures  finalframe@C03,C13: err#1 == nil && s.autoRefresh ==> called("(*pState).render") >= entry(2, called("(*pState).render")) + 1
 //@   ensures  released: called("(*sync.WaitGroup).Done") == old(called("(*sync.WaitGroup).Done")) + 1
 
@@ -1129,6 +1158,11 @@ package mpb
 //@   requires filler != nil
 //@   ensures  result != nil
 
+// C10: the state published through Bar.bs (stored once, just before bsOk is closed) is read
+// by getters on any goroutine; the only function that still writes it is the late render
+// path, and only the field below
+//@ published Bar.bs props C10 mutable shutdown
+
 // ---------------------------------------------------------------------------------------
 // public API of Bar: every operation is one closure handed to the owner (C10 atomicity:
 // at most one send per call, no state touched outside the closure); after the bar has shut
@@ -1139,6 +1173,8 @@ package mpb
 //@   requires b != nil
 //@   modifies sent(b.operateState), recvd("<-chan struct{}")
 //@   ensures  atomic@C10: sent(b.operateState) <= old(sent(b.operateState)) + 1
+//@   ensures  accepted@C09: sent(b.operateState) == old(sent(b.operateState)) + 1 || recvd(done(b.ctx)) > old(recvd(done(b.ctx)))
+//@   ensures  payload@C09: sent(b.operateState) == old(sent(b.operateState)) + 1 ==> fnof(lastSent(b.operateState)) == fn("(*Bar).IncrInt64$1") && bound(lastSent(b.operateState), "b") == in(b) && bound(lastSent(b.operateState), "n") == in(n)
 
 //@ func (*Bar).SetCurrent
 //@   props    C09 C10 C02
@@ -1146,36 +1182,48 @@ package mpb
 //@   modifies sent(b.operateState), recvd("<-chan struct{}")
 //@   ensures  atomic@C10: sent(b.operateState) <= old(sent(b.operateState)) + 1
 //@   ensures  ignored@C09: current < 0 ==> sent(b.operateState) == old(sent(b.operateState))
+//@   ensures  accepted@C09: current >= 0 ==> sent(b.operateState) == old(sent(b.operateState)) + 1 || recvd(done(b.ctx)) > old(recvd(done(b.ctx)))
+//@   ensures  payload@C09: sent(b.operateState) == old(sent(b.operateState)) + 1 ==> fnof(lastSent(b.operateState)) == fn("(*Bar).SetCurrent$1") && bound(lastSent(b.operateState), "current") == in(current)
 
 //@ func (*Bar).SetTotal
 //@   props    C09 C10 C02
 //@   requires b != nil
 //@   modifies sent(b.operateState), recvd("<-chan struct{}")
 //@   ensures  atomic@C10: sent(b.operateState) <= old(sent(b.operateState)) + 1
+//@   ensures  accepted@C09: sent(b.operateState) == old(sent(b.operateState)) + 1 || recvd(done(b.ctx)) > old(recvd(done(b.ctx)))
+//@   ensures  payload@C09: sent(b.operateState) == old(sent(b.operateState)) + 1 ==> fnof(lastSent(b.operateState)) == fn("(*Bar).SetTotal$1") && bound(lastSent(b.operateState), "b") == in(b) && bound(lastSent(b.operateState), "total") == in(total) && bound(lastSent(b.operateState), "complete") == in(complete)
 
 //@ func (*Bar).SetRefill
 //@   props    C09 C10 C02
 //@   requires b != nil
 //@   modifies sent(b.operateState), recvd("<-chan struct{}")
 //@   ensures  atomic@C10: sent(b.operateState) <= old(sent(b.operateState)) + 1
+//@   ensures  accepted@C09: sent(b.operateState) == old(sent(b.operateState)) + 1 || recvd(done(b.ctx)) > old(recvd(done(b.ctx)))
+//@   ensures  payload@C09: sent(b.operateState) == old(sent(b.operateState)) + 1 ==> fnof(lastSent(b.operateState)) == fn("(*Bar).SetRefill$1") && bound(lastSent(b.operateState), "amount") == in(amount)
 
 //@ func (*Bar).EnableTriggerComplete
 //@   props    C09 C10 C02
 //@   requires b != nil
 //@   modifies sent(b.operateState), recvd("<-chan struct{}")
 //@   ensures  atomic@C10: sent(b.operateState) <= old(sent(b.operateState)) + 1
+//@   ensures  accepted@C09: sent(b.operateState) == old(sent(b.operateState)) + 1 || recvd(done(b.ctx)) > old(recvd(done(b.ctx)))
+//@   ensures  payload@C09: sent(b.operateState) == old(sent(b.operateState)) + 1 ==> fnof(lastSent(b.operateState)) == fn("(*Bar).EnableTriggerComplete$1") && bound(lastSent(b.operateState), "b") == in(b)
 
 //@ func (*Bar).Abort
 //@   props    C09 C10 C02
 //@   requires b != nil
 //@   modifies sent(b.operateState), recvd("<-chan struct{}")
 //@   ensures  atomic@C10: sent(b.operateState) <= old(sent(b.operateState)) + 1
+//@   ensures  accepted@C09: sent(b.operateState) == old(sent(b.operateState)) + 1 || recvd(done(b.ctx)) > old(recvd(done(b.ctx)))
+//@   ensures  payload@C09: sent(b.operateState) == old(sent(b.operateState)) + 1 ==> fnof(lastSent(b.operateState)) == fn("(*Bar).Abort$1") && bound(lastSent(b.operateState), "b") == in(b) && bound(lastSent(b.operateState), "drop") == in(drop)
 
 //@ func (*Bar).EwmaIncrInt64
 //@   props    C09 C10 C02 C19
 //@   requires b != nil
 //@   modifies sent(b.operateState), recvd("<-chan struct{}")
 //@   ensures  atomic@C10: sent(b.operateState) <= old(sent(b.operateState)) + 1
+//@   ensures  accepted@C09: sent(b.operateState) == old(sent(b.operateState)) + 1 || recvd(done(b.ctx)) > old(recvd(done(b.ctx)))
+//@   ensures  payload@C09: sent(b.operateState) == old(sent(b.operateState)) + 1 ==> fnof(lastSent(b.operateState)) == fn("(*Bar).EwmaIncrInt64$1") && bound(lastSent(b.operateState), "b") == in(b) && bound(lastSent(b.operateState), "n") == in(n) && bound(lastSent(b.operateState), "iterDur") == in(iterDur)
 
 //@ func (*Bar).EwmaSetCurrent
 //@   props    C09 C10 C02
@@ -1183,6 +1231,8 @@ package mpb
 //@   modifies sent(b.operateState), recvd("<-chan struct{}")
 //@   ensures  atomic@C10: sent(b.operateState) <= old(sent(b.operateState)) + 1
 //@   ensures  ignored@C09: current < 0 ==> sent(b.operateState) == old(sent(b.operateState))
+//@   ensures  accepted@C09: current >= 0 ==> sent(b.operateState) == old(sent(b.operateState)) + 1 || recvd(done(b.ctx)) > old(recvd(done(b.ctx)))
+//@   ensures  payload@C09: sent(b.operateState) == old(sent(b.operateState)) + 1 ==> fnof(lastSent(b.operateState)) == fn("(*Bar).EwmaSetCurrent$1") && bound(lastSent(b.operateState), "b") == in(b) && bound(lastSent(b.operateState), "current") == in(current) && bound(lastSent(b.operateState), "iterDur") == in(iterDur)
 
 //@ func (*Bar).Current
 //@   props    C09 C10 C02
@@ -1210,7 +1260,7 @@ package mpb
 //@   requires b != nil
 //@   modifies sent(b.operateState), recvd()
 //@   ensures  atomic@C10: sent(b.operateState) <= old(sent(b.operateState)) + 1
-//@   ensures  late@C02,C11: sent(b.operateState) == old(sent(b.operateState)) ==> result == deref(b.bs).completed()
+//@   ensures  late@C02,C11: sent(b.operateState) == old(sent(b.operateState)) ==> result == b.bs.completed()
 
 //@ func (*Bar).IsRunning
 //@   props    C14 C02
